@@ -131,9 +131,14 @@ def check_case(ctx, cr, out_name, write_log, rng, tier, max_subsets):
         case = {**base_case, "subset": sub}
         cli_runs.clear_outputs(cr)
         stat0 = {}
+        content = {}
         for n in sub:
             p = cr["dir"] / n
-            p.write_bytes(SENTINEL + n.encode())
+            # now and then the pre-existing file is empty (a placeholder left by a failed run)
+            content[n] = b"" if rng.random() < 0.15 else SENTINEL + n.encode()
+            if not content[n]:
+                ctx.count("no-clobber:empty-pre-existing-file")
+            p.write_bytes(content[n])
             os.utime(p, ns=(1_600_000_000_000_000_000, 1_600_000_000_000_000_000))
             st = p.stat()
             stat0[n] = (st.st_ino, st.st_mtime_ns, st.st_size)
@@ -156,8 +161,9 @@ def check_case(ctx, cr, out_name, write_log, rng, tier, max_subsets):
                 bad = True
                 continue
             st = p.stat()
-            if p.read_bytes() != SENTINEL + n.encode():
-                ctx.violation(f"no-clobber:existing-file-content-changed:{_ftype(n)}", f"subset {sub}: {n} now {p.read_bytes()[:80]!r}", case)
+            if p.read_bytes() != content[n]:
+                kind = "empty-file" if not content[n] else "file"
+                ctx.violation(f"no-clobber:existing-{kind}-content-changed:{_ftype(n)}", f"subset {sub}: {n} now {p.read_bytes()[:80]!r}", case)
                 bad = True
             elif (st.st_ino, st.st_mtime_ns, st.st_size) != stat0[n]:
                 ctx.violation(f"no-clobber:existing-file-rewritten-in-place:{_ftype(n)}", f"subset {sub}: {n} inode/mtime changed {stat0[n]} -> {(st.st_ino, st.st_mtime_ns, st.st_size)}", case)
@@ -388,5 +394,6 @@ def gates(c, tier):
         "strace-ok": 4,
         "hostile-ok": 40,
         "hostile:race": 10,
+        "no-clobber:empty-pre-existing-file": 50,
     }
     return [f"{k}>={v} (got {c.get(k, 0)})" for k, v in need.items() if c.get(k, 0) < v]
